@@ -31,7 +31,7 @@ MODES = ["stub-root", "full", "partial", "skipped"]
 def cases(tier, seed):
     rng = random.Random(f"C08/{seed}")
     nmax, count = (7, 4000) if tier == "quick" else (8, 20000)
-    cl = [("dense-neg", 4), ("gadget", 4), ("rand", 2), ("rand-wide", 2), ("inputs", 1), ("overlap-maa", 0.3)]
+    cl = [("dense-neg", 4), ("gadget", 4), ("rand", 2), ("rand-wide", 2), ("inputs", 1), ("overlap-maa", 0.3), ("rings", 2)]
     corpus = gen.corpus()
     out = []
 
